@@ -281,6 +281,7 @@ func checkC03(r *mc.Report, thorough bool) {
 }
 
 func init() {
+	mc.CrossExecutionKeys = append(mc.CrossExecutionKeys, "history-dependent-hash")
 	registerSharded("C03", "model_checking", checkC03)
 	bodies["C03/histories-quick"] = c03Body([]int{3, 2, 2, 2})
 	bodies["C03/histories-thorough"] = c03Body([]int{4, 3, 3, 3})
